@@ -765,6 +765,13 @@ class Evaluator:
         w = self.bits(ty)
         if isinstance(base, tuple) and base and base[0] == "array" and T.is_k(i) and i[2] < len(base[1]):
             return base[1][i[2]]
+        if isinstance(base, tuple) and base and base[0] == "subslice" and len(base) == 4 and base[3] == 8 and w == 8 and i == T.K(64, 0) \
+                and isinstance(base[2], tuple) and base[2][0] == "op" and base[2][1] == "mul" and T.K(64, 8) in base[2][3:5]:
+            # byte 0 of the k-th 8-byte slot of a program is the opcode of instruction k (the layout ebpf::get_insn decodes)
+            k = base[2][3] if base[2][4] == T.K(64, 8) else base[2][4]
+            return ("v", ("insn", k, "opc"), 8)
+        if isinstance(base, tuple) and base and base[0] == "subslice" and w:
+            return ("sel", base[1], T.op("add", 64, base[2], i), w)
         if isinstance(base, tuple) and base and base[0] == "upd":
             _, inner, j, v = base
             if j == i:
@@ -1212,6 +1219,12 @@ def m_int(ev, vals, n, s, path, gens):
 def m_get_insn(ev, vals, n, s, path, gens):
     idx = vals[1]
     prog = vals[0]
+    pv = ev.deref_val(prog, s)
+    if isinstance(pv, tuple) and pv and pv[0] == "subslice" and len(pv) == 4 and pv[3] % 8 == 0 and isinstance(pv[2], tuple) and pv[2][0] == "op" \
+            and pv[2][1] == "mul" and T.K(64, 8) in pv[2][3:5]:
+        # instruction i of the piece that starts at slot k of a program is instruction k + i of the program
+        k = pv[2][3] if pv[2][4] == T.K(64, 8) else pv[2][4]
+        prog, idx = pv[1], T.op("add", 64, k, idx)
     flds = [("opc", 8), ("dst", 8), ("src", 8), ("off", 16), ("imm", 32)]
     ov = dict(getattr(ev, "insn_override", None) or {})
     # the opcode under analysis is forced for the instruction the iteration fetches first (the current one), not for
@@ -1711,6 +1724,20 @@ def m_iter_rev(ev, vals, n, s, path, gens):
 SUFFIX_MODELS.insert(0, SUFFIX_MODELS.pop())   # takes precedence over the generic into_iter identity
 
 
+@suffix_model(r"iter::Iterator::(copied|cloned)$|iter::Iterator>::(copied|cloned)$")
+def m_iter_copied(ev, vals, n, s, path, gens):
+    """`copied()` / `cloned()` on a sequence whose elements are known: the same elements by value"""
+    v = ev.deref_val(vals[0], s)
+    if isinstance(v, tuple) and v and v[0] == "array":
+        v = ("iterc", v[1], 0)
+    if isinstance(v, tuple) and v and v[0] == "iterc":
+        return [(v, s)]
+    return None
+
+
+SUFFIX_MODELS.insert(0, SUFFIX_MODELS.pop())
+
+
 def m_iter_next(ev, n, st, fp, path, gens):
     """Iterator::next(&mut it) on a concrete iterator value"""
     out = []
@@ -1762,6 +1789,44 @@ def m_concrete_index(ev, vals, n, s, path, gens):
 
 
 SUFFIX_MODELS.insert(0, SUFFIX_MODELS.pop())
+
+
+@suffix_model(r"slice::<impl \[T\]>::chunks_exact$")
+def m_chunks_exact(ev, vals, n, s, path, gens):
+    """`s.chunks_exact(c)` for a constant c > 0: the sequence of the floor(len / c) consecutive c-element pieces of s"""
+    base = ev.deref_val(vals[0], s)
+    if len(vals) < 2 or not T.is_k(vals[1]) or vals[1][2] == 0:
+        return None
+    return [(("chunks", base, vals[1][2]), s)]
+
+
+@suffix_model(r"slice::ChunksExact<'a, T> as core::iter::Iterator>::last$")
+def m_chunks_last(ev, vals, n, s, path, gens):
+    """the last whole piece: Some(s[(len/c - 1)*c ..][..c]) when len >= c, None otherwise"""
+    v = ev.deref_val(vals[0], s)
+    if not (isinstance(v, tuple) and v and v[0] == "chunks"):
+        return None
+    _, base, c = v
+    ln = ("call", "len", (base,), 64)
+    has = T.cmp("ule", 64, T.K(64, c), ln)
+    start = T.op("mul", 64, T.op("add", 64, T.op("udiv", 64, ln, T.K(64, c)), T.K(64, -1)), T.K(64, c))
+    return [(some(("subslice", base, start, c)), s.assume(has)), (NONE, s.assume(T.lnot(has)))]
+
+
+@suffix_model(r"slice::<impl \[T\]>::(get|first|last)$")
+def m_concrete_get(ev, vals, n, s, path, gens):
+    """`get(i)` / `first()` / `last()` of a sequence whose elements are known: the element or None"""
+    v = ev.deref_val(vals[0], s)
+    if not (isinstance(v, tuple) and v and v[0] == "array"):
+        return None
+    meth = path.rsplit("::", 1)[1]
+    if meth == "get":
+        if len(vals) < 2 or not T.is_k(vals[1]):
+            return None
+        i = vals[1][2]
+    else:
+        i = 0 if meth == "first" else len(v[1]) - 1
+    return [((some(v[1][i]) if 0 <= i < len(v[1]) else NONE), s)]
 
 
 def _apply(ev, f, args, n, s, ret_ty=None):
